@@ -151,6 +151,9 @@ PROP = {
         "GunYu.Props.C20.empty_fresh_absent",
         "GunYu.Props.C20.fnv32a_is_fnv1a32",
         "GunYu.Props.C20.fnv32a_lt",
+        # dimension audit: the clocks per chunk, the key expiring on the target between the chunks
+        "GunYu.Props.C20.chunk_never_persistent",
+        "GunYu.Props.C20.chunks_never_persistent",
     ],
     "expected_facts": {
         "c20_distribute": '{ var v0 *rdb.BinEntry var v1 bool var v2 uint32 for { select { case v0, v1 = <-rdbPipe: if !v1 { return nil } if v0.Err != nil { return v0.Err } if v0.Done { fullDone.Store(true) return nil } if useBisyncGlobalLane && ro.bisyncRdbIsGlobalEntry(v0) { select { case globalPipe <- v0: case <-ctx.Done(): return ctx.Err() } continue } if len(v0.Key) > 0 || (v0.ObjectParser != nil && v0.ObjectParser.Type() != rdb.RdbObjectFunction) { v3 := v0.Key if ro.cfg.ReplaceHashTag { v3 = bytes.Replace(v3, []byte("{"), []byte(""), 1) v3 = bytes.Replace(v3, []byte("}"), []byte(""), 1) } v2 = util.FnvHash(v3) % pipeLen } else { v2 = (v2 + 1) % pipeLen } select { case pipes[v2] <- v0: case <-ctx.Done(): return ctx.Err() } case <-ctx.Done(): return ctx.Err() } } }',
@@ -159,6 +162,8 @@ PROP = {
         "c20_loop_plain": 'select { case e, ok = <-pipe: if !ok { return nil } if e.Err != nil { return e.Err } if e.Done { return nil } case <-ctx.Done(): return nil } ;; filterOut := false ;; if ro.outFilter.FilterDb(int(e.DB)) { filterOut = true } else { if tdb, ok := ro.selectDB(currentDB, int(e.DB)); ok { currentDB = tdb err = redis.SelectDB(cli, uint32(currentDB)) if err != nil { return err } } if ro.outFilter.FilterKey(util.BytesToString(e.Key)) || ro.outFilter.FilterSlot(util.BytesToString(e.Key)) || ro.bisyncNsFilter.FilterKey(util.BytesToString(e.Key)) || ro.bisyncRdbTargetReserved(e.Key) { filterOut = true } } ;; if filterOut { ro.rdbFilterCounterAdd(1) } else { ro.rdbSendCounterAdd(1) err := replay.Replay(e) if err != nil { return err } } ;; pingFn(filterOut)',
         "c20_loop_bisync": 'select { case e, ok := <-pipe: if !ok || e.Done { return nil } if e.Err != nil { return e.Err } filterOut := false if ro.outFilter.FilterDb(int(e.DB)) { filterOut = true } else { if tdb, ok := ro.selectDB(currentDB, int(e.DB)); ok { currentDB = tdb if err := redispkg.SelectDB(cli, uint32(currentDB)); err != nil { return err } } if ro.outFilter.FilterKey(string(e.Key)) || ro.outFilter.FilterSlot(string(e.Key)) || isBisyncNamespaceKey(string(e.Key)) || ro.bisyncRdbTargetReserved(e.Key) { filterOut = true } } if filterOut { ro.rdbFilterCounterAdd(1) continue } unit, skip, err := ro.buildBisyncRdbReplayUnit(cli, fullSyncOffset, e, state) if err != nil { return err } if skip || unit == nil { continue } ro.rdbSendCounterAdd(1) if err := ro.execBisyncRdbUnit(cli, runID, unit); err != nil { return err } case <-ctx.Done(): return nil }',
         "c20_selectDB": '{ if originDB == -1 { return currentDB, false } targetDB := originDB if ro.cfg.TargetDb != -1 { targetDB = ro.cfg.TargetDb } else if tdb, ok := ro.cfg.TargetDbMap[originDB]; ok { targetDB = tdb } return targetDB, targetDB != currentDB }',
+        # process-global state the anchors reach (none is assigned by them: a trailing `=` would say so)
+        "c20_globals": 'execBisyncRdbUnit: config.Version ;; rdbFilterCounterAdd: rdbKeyFilterCounter ;; rdbSendCounterAdd: rdbKeySendCounter ;; restoreBigRdbEntry: ErrRestoreRdb ;; restoreOnce: ErrRestoreRdb ;; sendRdb: config.RdbPipeSize config.Version fullSyncProgress',
         "c20_fnv": '{ hash := fnv.New32a() hash.Write(data) return hash.Sum32() }',
     },
     "harness": [
@@ -233,6 +238,24 @@ PROP = {
             "generator. Keys that replaceHashTag rewrites INTO the tool's namespaces ({redis-gunyu-bisync:}x, {/redis-gunyu}y, "
             "redis-gunyu-{checkpoint}z): withheld by rdbReplayBisync (/repo f9044ee) and by rdbReplay (/repo e867911) - op token tres= -> the "
             "model's filterKey also asks the reserved prefixes of stripTag key; replayed only by RdbReplay.Replay called directly (mode plain). "
+            "DIMENSION AUDIT (last round). Scope ladder (180 rows per mode wplain / bisync, compared with the model and judged by all monitors): "
+            "policy x target holds nothing / the same type with a TTL / another type x path RESTORE / RESTORE refused (Bad data format) / "
+            "restore off / split value / dump above MaxProtoBulkLen x key as it is / replaceHashTag / TargetDb / the EMPTY key, a second key "
+            "behind. Scope ladder-fault: EVERY request of every row (EXISTS, DEL, RESTORE, RESTORE REPLACE, each native command, PEXPIRE, SELECT, "
+            "MULTI, the marker SET, EXEC) meets a fault - an error reply that is neither BUSYKEY nor Bad data format (double: FailAt), the "
+            "connection cut instead of the request (DropAt), the request executed and its reply lost (LoseReplyAt); quick: one kind per "
+            "request (2366 runs), thorough: all three. Monitor CheckFault against the SAME case without the fault: the replay fails "
+            "(fault-swallowed), the requests up to the fault are the clean run's (fault-prefix-differs), what follows continues the clean run "
+            "and never reaches a LATER key (fault-continued), ignore / error leave a held key unchanged, a cell the clean run leaves alone "
+            "is left alone (fault-touched). Scope expiry-between-chunks (52 per mode): a 4-chunk hash whose expiry lies 1..60 ms ahead, every "
+            "request takes 1 ms and the target's clock RUNS (Case.Tick: the double expires keys during the run): the key expires on the "
+            "target between its chunks / later chunks compute 'already past'; monitor CheckExpiryKept: a snapshot key with an expiry is "
+            "never left PERSISTENT (expiry-lost). Counters cfg_<option>_<value> for every option that reaches the replay code "
+            "(keyExists incl. raw strings, keyExistsLog, replayRdbEnableRestore, maxProtoBulkLen, redis version, replaceHashTag, targetDb, "
+            "targetDbMap, replayRdbParallel, RdbPipeSize, dbBlacklist, key prefix black list, chunk threshold, bisync; source fact c20_globals: "
+            "the package-level variables the anchor functions name - config.RdbPipeSize (drawn 1..8 and the default), config.Version, the "
+            "metric counters shared by the N workers, ErrRestoreRdb; none is assigned by them), in_* (empty key, empty "
+            "collection, expiry codes) and tgt_* (what the target holds, with / without TTL, in which DB, the empty key). "
             "distinct_nontrivial = distinct cases with at least one pre-existing key",
     "trusted": [
         "Redis semantics of EXISTS/DEL/PEXPIRE/RESTORE[REPLACE]/BUSYKEY and of native data commands (create-or-append, TTL kept) "
@@ -308,7 +331,8 @@ PROP = {
         "STILL PARTIAL: between two entry boundaries of a worker (requests of one entry pending) the held-cell statement is not "
         "stated (the pending requests are probe-only or concern a cell found absent: argued, not proved); a worker never dies "
         "INSIDE an entry in Sys (WOK.halt: SELECT error -> `return err` before the entry, a connection error after DEL, "
-        "NewRedisConn failing before the first entry are not modelled - the double never fails a SELECT); TargetDb < -1: the model "
+        "NewRedisConn failing before the first entry are not modelled; since the dimension audit they are RUN: scope ladder-fault fails "
+        "every request of the ladder, SELECT included, judged by CheckFault against the clean run - not by the model); TargetDb < -1: the model "
         "sends to DB 0, the real SELECT 4294967294 fails (config.fix does not exclude it); the PING of pingFn after 3 s of "
         "filtered entries is not modelled (no keyspace effect); the cluster global lane (rdbReplayBisyncGlobal / globalPipe: AUX and "
         "function entries bypass idx) is absent - keyless entries only; Req.marker has no keyspace effect in the model: the N "
@@ -353,8 +377,11 @@ PROP = {
         "only, never PEXPIREAT / ABSTTL), clocks advancing in lock-step between the chunks of a value (exp_lockstep, exp_lockstep_crossed), "
         "replace_past_expiry / replace_no_expiry_clears_ttl; exercised: exhaustive-expiry-boundary. STILL PARTIAL: the code does not tell "
         "'expired at load time' from 'expired at replay time' (the loader drops nothing; one rule) - stated, not a policy choice of the "
-        "model; the model of a RUN still has one `now` (the lock-step lemmas are about expAbs, not threaded through runPlain); the target "
-        "double does not expire a key during a run, so 'the key is gone 1 ms later' is the double's clock away from being observed",
+        "model; the clocks are threaded through the CHUNKS of one value (chunksAt: every chunk its own tool clock and target clock, the "
+        "target dropping an expired key before each chunk; chunk_never_persistent / chunks_never_persistent: whatever the clocks and wherever "
+        "the key expires in between, a value whose every chunk carries the expiry is never left persistent - the invariant 'PEXPIRE only on "
+        "the first bin' breaks) and exercised on the real code with a running target clock (expiry-between-chunks); runPlain / Sys still "
+        "have one `now` (chunksAt is a per-key function beside them, not a refinement of them)",
         "bounded pipes / a failed worker: COMPOSED (Props/C20Sys.lean): CSys = the distributor with bounded pipes + the n workers of Sys on one "
         "keyspace (a worker on an empty OPEN pipe is blocked, everything else is Sys.step); csys_refines: for every capacity and schedule the "
         "abstraction of the state reached (each pipe completed by what the distributor still holds for it; Move.close on every pipe when the "
